@@ -162,3 +162,22 @@ def run_timed_after_abort(items, ops, k, mux=True, snap=None):
     cur[0] = len(items)
     s.on_completed()
     return tr
+
+
+def flaky_src(items, k):
+    """cold observable whose FIRST subscription pushes items[:k] and then fails at the Rx level (no key completion); every later subscription pushes all the
+    items and completes.  ``flaky_src(...).pipe(op)`` subscribed repeatedly is what ops.retry does with a pipeline: the same observable object, the same operator
+    closures, the same store."""
+    n = [0]
+
+    def sub(observer, scheduler=None):
+        n[0] += 1
+        if n[0] == 1:
+            for i in items[:k]:
+                observer.on_next(i)
+            observer.on_error(RuntimeError('source failed'))
+            return
+        for i in items:
+            observer.on_next(i)
+        observer.on_completed()
+    return rx.create(sub)
